@@ -456,3 +456,7 @@ def run(ck: Check, repo: Repo) -> None:
     rule_source(ck, repo)
     rule_decode_modes(ck, repo)
     rule_format_strings(ck, repo)
+    # a glob of REUSE.toml becomes a regular expression that is compiled while the file is loaded: it must be well formed
+    # for EVERY glob, or re.error (not a parse error of the file) ends the run (shared with C05)
+    from . import c05
+    c05.rule_wellformed(ck, repo, "R7")
